@@ -369,6 +369,12 @@ fn get_last_traversed_edge_id(
     }
 }
 
+// verification only: the prologue, the loop body and the epilogue of `run_a_star`, re-emitted
+// verbatim as three functions by the verification driver's source slicer from this very file, so
+// that a single iteration of the search loop can be checked from an arbitrary search state.
+#[cfg(all(kani, feature = "verif-step"))]
+include!(env!("VERIF_A_STAR_STEP"));
+
 #[cfg(test)]
 mod tests {
     use super::*;
